@@ -1,21 +1,26 @@
 #!/bin/bash
 # runs ./check all against every seeded change (scratch copy of /repo/src), prints a matrix.
-# 6 workers, each with its own build / evidence / replay directories under .build/matrix/<k>
-cd /verif
+# 6 workers, each with its own build / evidence / replay directories under .build/matrix/<seed>.
+# Location-independent (a snapshot copy of /verif can run it while /verif is being edited).
+V=$(cd "$(dirname "$0")/.." && pwd); export V
+cd $V
 rm -rf .build/matrix; mkdir -p .build/matrix
 one() {
-  n=$1; k=$2; prop=${n%%_*}
-  B=/verif/.build/matrix/$n; S=$B/repo
+  n=$1; prop=${n%%_*}
+  B=$V/.build/matrix/$n; S=$B/repo
   mkdir -p $B; rm -rf $S && mkdir -p $S && cp -r /repo/src $S/src
-  if ! (cd $S && patch -p1 -s < /verif/seeded/$n/patch.diff >/dev/null 2>&1); then echo "$n | PATCH-FAILS"; return; fi
+  if ! (cd $S && patch -p1 -s < $V/seeded/$n/patch.diff >/dev/null 2>&1); then echo "$n | PATCH-FAILS"; return; fi
   out=$(VERIF_BUILD=$B VERIF_EVIDENCE=$B/evidence VERIF_REPLAYS=$B/replays VERIF_REPO=$S ./check all 2>&1)
   viol=$(echo "$out" | grep -o 'VIOLATION property=C[0-9]*' | sed 's/VIOLATION property=//' | sort -u | tr '\n' ' ')
+  undp=$(echo "$out" | grep -oE '^C[0-9]+: UNDECIDED' | sed 's/: UNDECIDED//' | sort -u | tr '\n' ' ')
   und=$(echo "$out" | grep -E 'UNDECIDED property=all' | cut -c1-140)
-  own=$(echo "$out" | grep -q "VIOLATION property=$prop " && echo HIT || echo miss)
+  if echo "$out" | grep -q "VIOLATION property=$prop "; then own=HIT
+  elif echo "$out" | grep -qE "^$prop: UNDECIDED|UNDECIDED property=all"; then own=undecided
+  else own=miss; fi
   obl=$(echo "$out" | grep -A40 "VIOLATION property=$prop " | grep 'failed obligation' | head -2 | sed 's/  failed obligation //; s/#.*//' | tr '\n' ';')
-  echo "$n | own=$own | violations: $viol | $und | $obl"
+  echo "$n | own=$own | violations: $viol | undecided: $undp $und | $obl"
   rm -rf $B
 }
 export -f one
-ls seeded | awk '{print $1, (NR%6)}' | xargs -P 6 -n 2 bash -c 'one "$0" "$1"' | sort
-rm -rf .build/matrix/*/repo
+ls seeded | xargs -P 6 -n 1 bash -c 'one "$0"' | sort
+rm -rf .build/matrix
